@@ -46,9 +46,17 @@ class FakeWriter:
             self.wire.client_closed_at = now_ms()
             if self.wire.on_client_close is not None:
                 self.wire.on_client_close()
+            # like the selector transport: connection_lost() is delivered by call_soon
+            try:
+                asyncio.get_running_loop().call_soon(self.wire._mark_lost)
+            except RuntimeError:
+                self.wire.lost = True
 
     async def wait_closed(self) -> None:
-        return None
+        """Waits for connection_lost(): suspends unless the connection is already lost (after a reset
+        it is; after a peer FIN or a local close() it is not yet)."""
+        while not self.wire.lost:
+            await asyncio.sleep(0)
 
     def is_closing(self) -> bool:
         return self._closed
@@ -69,6 +77,7 @@ class Wire:
         self.out: list[tuple[int, bytes]] = []  # (virtual ms, bytes written by the client)
         self.fed: list[tuple[int, bytes]] = []  # (virtual ms, bytes fed to the client)
         self.broken = False
+        self.lost = False  # connection_lost() delivered to the client's protocol
         self.eof_sent = False
         self.client_closed_at: int | None = None
         self.on_out: Callable[[bytes], None] | None = None
@@ -121,7 +130,11 @@ class Wire:
         self.eof_sent = True
         asyncio.get_running_loop().call_soon(self._do_reset)
 
+    def _mark_lost(self) -> None:
+        self.lost = True
+
     def _do_reset(self) -> None:
+        self.lost = True
         if self.reader.exception() is None:
             self.reader.set_exception(ConnectionResetError("fake: connection reset by peer"))
 
